@@ -55,8 +55,9 @@ func Load(repo, tags string) (*World, error) {
 	renamed := map[string]bool{}
 	for fn := range fnAlias {
 		renamed[fn.RelString(w.Types)] = true
+		renamed[unaliasTypes(fn.RelString(w.Types))] = true
 	}
-	known := func(key string) bool { _, ok := funcInventory[key]; return ok || renamed[key] }
+	known := func(key string) bool { _, ok := funcInventory[unaliasTypes(key)]; return ok || renamed[key] || renamed[unaliasTypes(key)] }
 	overlay, notes, nerr := normalizeHelpers(repo, tags, os.Getenv("PATH"), known)
 	if nerr != nil || len(overlay) == 0 {
 		if nerr != nil {
@@ -150,6 +151,7 @@ func loadWith(repo, tags string, overlay map[string][]byte) (*World, error) {
 	if w.SPkg == nil {
 		return nil, fmt.Errorf("load: no SSA package")
 	}
+	typeNotes := resolveTypeAliases(p.Types)
 	for fn := range ssautil.AllFunctions(prog) {
 		if fn.Pkg != w.SPkg || fn.Synthetic != "" && fn.Syntax() == nil {
 			continue
@@ -158,9 +160,9 @@ func loadWith(repo, tags string, overlay map[string][]byte) (*World, error) {
 			continue
 		}
 		w.Funcs = append(w.Funcs, fn)
-		w.byName[fn.RelString(w.Types)] = fn
+		w.byName[unaliasTypes(fn.RelString(w.Types))] = fn
 	}
-	sort.Slice(w.Funcs, func(i, j int) bool { return w.Funcs[i].RelString(w.Types) < w.Funcs[j].RelString(w.Types) })
+	sort.Slice(w.Funcs, func(i, j int) bool { return unaliasTypes(w.Funcs[i].RelString(w.Types)) < unaliasTypes(w.Funcs[j].RelString(w.Types)) })
 	for _, f := range p.Syntax {
 		for _, d := range f.Decls {
 			fd, ok := d.(*ast.FuncDecl)
@@ -169,7 +171,7 @@ func loadWith(repo, tags string, overlay map[string][]byte) (*World, error) {
 			}
 			if obj, ok := p.TypesInfo.Defs[fd.Name].(*types.Func); ok {
 				if sf := prog.FuncValue(obj); sf != nil {
-					w.astDecl[sf.RelString(w.Types)] = fd
+					w.astDecl[unaliasTypes(sf.RelString(w.Types))] = fd
 				}
 			}
 		}
@@ -177,7 +179,7 @@ func loadWith(repo, tags string, overlay map[string][]byte) (*World, error) {
 	if len(w.Funcs) < 300 {
 		return nil, fmt.Errorf("load: only %d source functions found (expected > 300)", len(w.Funcs))
 	}
-	w.RoleNotes = append(w.resolveRoles(), w.resolveFieldAliases()...)
+	w.RoleNotes = append(append(typeNotes, w.resolveRoles()...), w.resolveFieldAliases()...)
 	return w, nil
 }
 
@@ -201,9 +203,9 @@ func (w *World) Name(fn *ssa.Function) string {
 		top = top.Parent()
 	}
 	if a, ok := fnAlias[top]; ok && top != fn {
-		return a + strings.TrimPrefix(fn.RelString(w.Types), top.RelString(w.Types))
+		return a + strings.TrimPrefix(unaliasTypes(fn.RelString(w.Types)), unaliasTypes(top.RelString(w.Types)))
 	}
-	return fn.RelString(w.Types)
+	return unaliasTypes(fn.RelString(w.Types))
 }
 
 // Pos renders a position relative to the repository root.
